@@ -14,9 +14,28 @@ def na(pid, reason):
     P[pid] = dict(claimed=False, reason=reason)
 
 TRUST = ("Trusted base: go/packages + go/types + go/ssa (x/tools v0.29.0) faithfully represent /repo's non-test sources "
-         "of package mqtt for GOARCH=amd64 (thorough: also 386); the checker's own rule code. ")
+         "of package mqtt for GOARCH=amd64 (thorough: also 386); the checker's own rule code, including the "
+         "source-level inliner that normalises helper functions absent from the reference tree before the rules run "
+         "(semantics-preserving by construction, identity on the unchanged tree, DESIGN.md 9.6) and the infeasible-edge "
+         "oracle (nil tests of values known non-nil). ")
 
 exec(open(os.path.join(HERE, "tools", "manifest_table.py")).read())
+
+ADD = {
+ "C01": " Also decided: every early exit of the Retry loop puts the unattempted entries back; the reconnect loop stops only on request (context done, Disconnect, graceful end).",
+ "C02": " Also decided: every failure of the QoS 2 exchange after registration carries a retry handle that the error wrappers keep; early exits of the Retry loop put the unattempted entries back.",
+ "C04": " Also decided: the Message a PUBLISH is parsed into is a fresh object per packet (a held QoS 2 message cannot be overwritten by the next PUBLISH).",
+ "C09": " Also decided: every path of the reconnect goroutine to a return passes ctx-done, `disconnected` or Err() == nil; a failed ping makes KeepAlive return a non-nil error and leaves the closed connection with a non-nil Err().",
+ "C11": " Also decided: BaseClient.Close closes the transport on every path, and so does Disconnect once DISCONNECT was written.",
+ "C12": " Also decided: PUBREL is written only by the PUBREL stage of the QoS 2 publish.",
+ "C13": " Also decided: after a keep-alive failure the closed connection reports a non-nil Err(), so the loop redials.",
+ "C15": " Also decided: Message.ID is written only in the publish implementation, only when it is 0, from newID(); the counter is followed through pointer conversions and helper methods.",
+ "C18": " Also decided: the reconnect loop then stops only on request (so a new connection is established); what is reported is identifiable as RequestTimeoutError.",
+ "C19": " Also decided: every context bounded by ResponseTimeout is the requestContext wrapper and its Err() yields RequestTimeoutError whenever the bound can have expired.",
+}
+for _pid, _t in ADD.items():
+    if _pid in P and P[_pid].get("claimed"):
+        P[_pid]["text"] += _t
 
 ALL = ["C%02d" % i for i in range(1, 21)]
 checks = []
@@ -38,7 +57,7 @@ for pid in ALL:
         "engine": "mqttcheck",
         "level_claimed": {"category": "other", "text": e["text"], "design_ref": e["ref"]},
         "level_note": TRUST + e["note"],
-        "technique": e["technique"],
+        "technique": e["technique"] + "; on the type-checked SSA of /repo's current tree after source-level inlining of helper functions that are new relative to the reference tree",
     })
 
 m = {
@@ -55,7 +74,7 @@ m = {
         "name": "mqttcheck",
         "path": "/verif/checker",
         "serves_properties": [c["property_id"] for c in checks],
-        "kind_free_text": "repository-specific static analyser (Go, golang.org/x/tools v0.29.0: go/packages, go/types, go/ssa): per-property rule sets over the type-checked SSA of package mqtt — CFG path rules (must-precede / must-follow / dominated-by-edge), who-may-write / who-may-call, value-origin identity through closures and cells, constant/table checks, lock-set and bounds analyses. Runs no library code.",
+        "kind_free_text": "repository-specific static analyser (Go, golang.org/x/tools v0.29.0: go/packages, go/types, go/ssa): per-property rule sets over the type-checked SSA of package mqtt — CFG path rules (must-precede / must-follow / dominated-by-edge), who-may-write / who-may-call, value-origin identity through closures and cells, constant/table checks, lock-set and bounds analyses; a source-level normalisation pass (inlining of new helper functions, scalar replacement of helper structs) and an infeasible-edge oracle make the rules independent of where a refactoring put the code. Runs no library code.",
     }],
     "checks": checks,
     "notes": "All checks are static analyses of /repo's current working tree (level 'other': structural necessary conditions decided on all paths; behaviour itself is neither executed nor modelled). Genuine defects found on the pinned tree were repaired by unguarded 'fix:' commits in /repo and are recorded as 'fixed' in /verif/known_findings.jsonl. /verif/seeded holds independently produced breaking changes used to validate the checks; /verif/triage holds the one-off reproductions used to triage defects (not checks).",
